@@ -47,7 +47,9 @@ theorem release_exactly_once (c : Cfg) (hc : c.Good) (s : St) (h : Reachable c s
     (s.inst i).tls = .freed ∧ (s.inst i).tlsFrees = 1 ∧
     (s.inst i).stack = .freed ∧ (s.inst i).stackFrees = 1 ∧
     ((s.inst i).panicked = false → (s.inst i).box = .freed ∧ (s.inst i).boxFrees = 1) ∧
-    ((s.inst i).panicked = true → (s.inst i).box = .live ∧ (s.inst i).boxFrees = 0) := by
+    ((s.inst i).panicked = true → (s.inst i).box = .live ∧ (s.inst i).boxFrees = 0) ∧
+    -- the closure's return value has left the runtime's hands (taken by join, or dropped with the handle)
+    (s.inst i).val ≠ .live := by
   have inv := reachable_inv c hc s h i
   have hnf : isFailed (s.inst i).h = false := by
     cases hh : (s.inst i).h <;> simp_all [spawnedOk, isFailed]
@@ -59,13 +61,18 @@ theorem release_exactly_once (c : Cfg) (hc : c.Good) (s : St) (h : Reachable c s
     exact inv.wH.mpr hh
   have htls : (s.inst i).tls = .freed := by rw [inv.tlsEq]; simp [tlsOf, hsp, hdead, tFreedTls]
   have hst : (s.inst i).stack = .freed := by rw [inv.stackEq]; simp [stackOf, hsp, hdead, tFreedStack]
-  refine ⟨htsm, by rw [inv.tsmC, htsm]; rfl, htls, by rw [inv.tlsC, htls]; rfl, hst, by rw [inv.stackC, hst]; rfl, ?_, ?_⟩
+  refine ⟨htsm, by rw [inv.tsmC, htsm]; rfl, htls, by rw [inv.tlsC, htls]; rfl, hst, by rw [inv.stackC, hst]; rfl, ?_, ?_, ?_⟩
   · intro hp
     have hb : (s.inst i).box = .freed := by rw [inv.boxEq]; simp [boxOf, hsp, hdead, tFreedBox, hp]
     exact ⟨hb, by rw [inv.boxC, hb]; rfl⟩
   · intro hp
     have hb : (s.inst i).box = .live := by rw [inv.boxEq]; simp [boxOf, hsp, hdead, tFreedBox, hp]
     exact ⟨hb, by rw [inv.boxC, hb]; rfl⟩
+  · rw [inv.valEq]
+    cases hp : (s.inst i).panicked
+    · cases hh : (s.inst i).h <;> simp_all [hFinal, spawnedOk, valOf, hReadDone, tPastFlag, tRan]
+      exact inv.wH.mpr hh
+    · simp [valOf, hp]
 
 /-- no resource is ever released twice, in any reachable state (complete or not) -/
 theorem never_released_twice (c : Cfg) (hc : c.Good) (s : St) (h : Reachable c s) (i : Nat) :
@@ -129,7 +136,7 @@ theorem detached_handle_is_done (c : Cfg) (x : Inst) (e : Ev) (hh : x.h = .detac
 theorem no_stack_access_after_munmap (c : Cfg) (x x' : Inst) (e : Ev) (ht : x.t = .exit) (hte : isHEv e = false)
     (hne : e ≠ .kExit) (hs : stepI c x e = some x') : e = .tExit ∧ x'.bad = x.bad ∧ x'.stack = x.stack := by
   cases e <;> simp_all [stepI, isHEv]
-  subst hs; simp
+  all_goals (subst hs; exact ⟨rfl, rfl⟩)
 
 /-- the panic handler has copied what it needs out of the thread-local block before it frees it: after the
 release of tls no step of T touches tls (its remaining steps — CAS, set_tid_address, freeing tsm, munmap, exit —
@@ -147,9 +154,9 @@ theorem tls_not_touched_after_release (c : Cfg) (hc : c.Good) (s s' : St) (h : R
         intro h0
         obtain ⟨j, f⟩ := a
         simp only [run, List.cons_append] at h0 ⊢
-        split at h0
-        · rename_i s1 h1; simp only [h1]; exact ih s1 h0
-        · simp at h0
+        cases h1 : step c s0 j f with
+        | none => simp [h1] at h0
+        | some s1 => simp only [h1] at h0 ⊢; exact ih s1 h0
     exact this _ _ hr
   have inv' := reachable_inv c hc s' h' i
   have hcnt := (reachable_inv c hc s h i).tlsC
@@ -218,8 +225,11 @@ theorem exactly_one_freer (c : Cfg) (hc : c.Good) (s : St) (h : Reachable c s) (
 /-- what a finished instance leaves behind -/
 def leaked (x : Inst) : Nat := b2n (spawnedOk x.h && x.panicked)
 
-theorem complete_ledger (c : Cfg) (hc : c.Good) (s : St) (h : Reachable c s) (i : Nat)
-    (hcmp : complete (s.inst i) = true) : liveHeap (s.inst i) = leaked (s.inst i) ∧ liveMaps (s.inst i) = 0 := by
+/-- the ledger of a complete instance: nothing live but, for a spawned thread that panicked, its closure -/
+theorem baseline_pointwise (c : Cfg) (hc : c.Good) (s : St) (h : Reachable c s) (i : Nat)
+    (hcmp : complete (s.inst i) = true) :
+    (s.inst i).tsm ≠ .live ∧ (s.inst i).tls ≠ .live ∧ (s.inst i).stack ≠ .live ∧ (s.inst i).val ≠ .live ∧
+    ((s.inst i).box = .live ↔ (spawnedOk (s.inst i).h = true ∧ (s.inst i).panicked = true)) := by
   have inv := reachable_inv c hc s h i
   cases hsp : spawnedOk (s.inst i).h
   · -- spawn failed: everything that had been set up is released again
@@ -233,11 +243,20 @@ theorem complete_ledger (c : Cfg) (hc : c.Good) (s : St) (h : Reachable c s) (i 
       rw [inv.stackEq]; cases hh : (s.inst i).h <;> simp_all [isFailed, stackOf, stackH, spawnedOk] <;> split <;> simp
     have h4 : (s.inst i).box = .freed := by
       rw [inv.boxEq]; cases hh : (s.inst i).h <;> simp_all [isFailed, boxOf, boxH, spawnedOk]
-    simp [liveHeap, liveMaps, leaked, hsp, h1, h2, h3, h4, b2n]
-  · obtain ⟨a1, _, a3, _, a5, _, a7, a8⟩ := release_exactly_once c hc s h i hcmp hsp
+    have h5 : (s.inst i).val = .unalloc := by
+      rw [inv.valEq]; have := inv.started.mpr hsp; simp [valOf, this, tRan]
+    simp [h1, h2, h3, h4, h5]
+  · obtain ⟨a1, _, a3, _, a5, _, a7, a8, a9⟩ := release_exactly_once c hc s h i hcmp hsp
     cases hp : (s.inst i).panicked
-    · have := (a7 hp).1; simp [liveHeap, liveMaps, leaked, hsp, hp, a1, a3, a5, this, b2n]
-    · have := (a8 hp).1; simp [liveHeap, liveMaps, leaked, hsp, hp, a1, a3, a5, this, b2n]
+    · have := (a7 hp).1; simp [a1, a3, a5, this, a9]
+    · have := (a8 hp).1; simp [a1, a3, a5, this, a9]
+
+theorem complete_ledger (c : Cfg) (hc : c.Good) (s : St) (h : Reachable c s) (i : Nat)
+    (hcmp : complete (s.inst i) = true) : liveHeap (s.inst i) = leaked (s.inst i) ∧ liveMaps (s.inst i) = 0 := by
+  obtain ⟨h1, h2, h3, h0, h4⟩ := baseline_pointwise c hc s h i hcmp
+  unfold liveHeap liveMaps leaked b2n
+  cases e1 : (s.inst i).tsm <;> cases e2 : (s.inst i).tls <;> cases e3 : (s.inst i).stack <;> cases e4 : (s.inst i).box <;>
+    cases e0 : (s.inst i).val <;> cases e5 : spawnedOk (s.inst i).h <;> cases e6 : (s.inst i).panicked <;> simp_all
 
 theorem init_ledger : liveHeap Inst.init = 0 ∧ liveMaps Inst.init = 0 ∧ leaked Inst.init = 0 := by decide
 
@@ -258,17 +277,6 @@ theorem baseline_restored (c : Cfg) (hc : c.Good) (s : St) (h : Reachable c s) (
       · rw [h1]; exact ⟨by decide, by decide⟩
     simp only [sumTo]
     omega
-
-/-- pointwise form: the ledger of a complete instance is the initial ledger except for the leaked closure -/
-theorem baseline_pointwise (c : Cfg) (hc : c.Good) (s : St) (h : Reachable c s) (i : Nat)
-    (hcmp : complete (s.inst i) = true) :
-    (s.inst i).tsm ≠ .live ∧ (s.inst i).tls ≠ .live ∧ (s.inst i).stack ≠ .live ∧
-    ((s.inst i).box = .live ↔ (spawnedOk (s.inst i).h = true ∧ (s.inst i).panicked = true)) := by
-  have hl := complete_ledger c hc s h i hcmp
-  have inv := reachable_inv c hc s h i
-  unfold liveHeap liveMaps leaked b2n at hl
-  cases h1 : (s.inst i).tsm <;> cases h2 : (s.inst i).tls <;> cases h3 : (s.inst i).stack <;> cases h4 : (s.inst i).box <;>
-    cases h5 : spawnedOk (s.inst i).h <;> cases h6 : (s.inst i).panicked <;> simp_all
 
 /-! ## the orderings of completion, panic, join and drop all occur (non-vacuity) -/
 
@@ -296,6 +304,18 @@ def summary (tr : List (Nat × Ev)) : Option (Bool × Bool × Nat × Nat × Opti
 example : summary dropFirstTrace = some (true, false, 0, 0, some .H) := by decide
 example : summary dropLateTrace = some (true, false, 0, 0, some .T) := by decide
 example : summary panicDropAfterTrace = some (true, false, 1, 0, some .T) := by decide
+
+/-- spawn.rs before the repair: a handle dropped without join never dropped the thread's return value -/
+def noDropCfg : Cfg := { genCfg with dropValH := false, dropValT := false }
+
+/-- **dropped_handle_leaks_result_counterexample**: as the code was, with the handle dropped (whichever side wins the
+flag) the value the closure returned is never dropped — its destructor does not run and whatever it owns stays
+allocated, so the heap is not back at its baseline although nothing panicked -/
+theorem dropped_handle_leaks_result_counterexample :
+    ((run noDropCfg St.init dropLateTrace).map (fun s => (complete (s.inst 0), (s.inst 0).val, liveHeap (s.inst 0))) =
+      some (true, .live, 1)) ∧
+    ((run noDropCfg St.init dropFirstTrace).map (fun s => (complete (s.inst 0), (s.inst 0).val, liveHeap (s.inst 0))) =
+      some (true, .live, 1)) := by decide
 
 /-- the protections are needed: without `set_tid_address(0)` the kernel's clear-tid write lands in the block the
 losing thread has already freed -/
